@@ -125,6 +125,49 @@ func ruleAddrResolved(c *Ctx) {
 			}
 		}
 	}
+	// the address the launching call returns is the address it records: later
+	// calls return the recorded one (Client.address), so the two must be one
+	// value - the store's right-hand side is the address result itself, not
+	// re-bound before the return, or the returns that follow name the field
+	addrF := p.FieldObj(modPath, "Client", "address")
+	for _, m := range g.Nodes {
+		as, ok := m.Ast.(*ast.AssignStmt)
+		if !ok || len(as.Lhs) != len(as.Rhs) {
+			continue
+		}
+		for i, l := range as.Lhs {
+			if SelField(info, l) != addrF || addrF == nil {
+				continue
+			}
+			construct := "the address returned is the address recorded"
+			after := g.ReachAfter(m, nil, nil)
+			same := identObj(info, ast.Unparen(as.Rhs[i])) == types.Object(addrV)
+			okSame := true
+			why := ""
+			for x := range after {
+				if x.Ast == nil {
+					continue
+				}
+				if same && definesAddr(x) {
+					okSame, why = false, "the address result is assigned again at "+p.Pos(x.Ast)+" after it was recorded"
+				}
+				if rs, isR := x.Ast.(*ast.ReturnStmt); isR && !same {
+					if len(rs.Results) == 2 && SelField(info, ast.Unparen(rs.Results[0])) == addrF {
+						continue
+					}
+					if len(rs.Results) == 2 && !isNilIdent(info, rs.Results[1]) && p.isNonNilExpr(f, rs.Results[1]) {
+						continue
+					}
+					okSame, why = false, "Client.address is set to "+exprStr(as.Rhs[i])+" while the return at "+p.Pos(rs)+" hands back the address result"
+				}
+			}
+			if okSame {
+				c.R.Hold("R-ADDR", p.Pos(as), f.Name, construct, "the recorded value is the address result (not re-bound afterwards), or the returns after the store name Client.address", true)
+			} else {
+				c.R.Violate("R-ADDR", p.Pos(as), f.Name, construct, why+": the call that launches the plugin returns one address and every later Start call another", nil)
+			}
+		}
+	}
 	if bad == 0 {
 		c.R.Hold("R-ADDR", p.Pos(f.Node()), f.Name, "successful Start returns a resolved address", fmt.Sprintf("no return is reached with a certainly-nil error on a path without an assignment to the address result (%d address-free return states examined)", nRet), true)
 	}
@@ -1301,6 +1344,134 @@ func ruleBrokerListeners(c *Ctx) {
 			"GRPCServer.Stop stops the main gRPC server before it closes the broker: Serve returns as soon as the server has stopped and the plugin process exits, racing with (and usually beating) the removal of the brokered listeners' socket files", nil)
 	} else {
 		c.R.Hold("R-RES/brokerls", p.Pos(stopNode.Ast), stop.Name, "broker closed before the server stops", "every path to grpc.Server.Stop has closed the broker", true)
+	}
+}
+
+// ruleShutdownStopOrder: clause (c) of R-RES/brokerls for everything the
+// controller's Shutdown handler can reach (including goroutines it starts): a
+// function on that path that stops the main gRPC server - Stop or GracefulStop
+// on the grpc.Server - has closed the broker first, in itself or through a
+// module function it calls before. (GRPCServer.Stop itself is clause (c).)
+func ruleShutdownStopOrder(c *Ctx) {
+	p := c.P
+	sh := p.Fn("grpcControllerServer.Shutdown")
+	if sh == nil {
+		c.R.Undecided("R-RES/brokerls", "grpcControllerServer.Shutdown", "anchor", "function not found")
+		return
+	}
+	n := 0
+	for rf := range p.ReachableFuncs([]*Func{sh}, true) {
+		if rf.Name == "GRPCServer.Stop" || !strings.HasPrefix(rf.Pkg.PkgPath, modPath) {
+			continue
+		}
+		g := p.Graph(rf)
+		closesBroker := func(m *Node) bool {
+			if m.Ast == nil {
+				return false
+			}
+			for _, call := range callsIn(m.Ast) {
+				if p.CalleeName(rf, call) == modPath+".GRPCBroker.Close" {
+					return true
+				}
+				if ce := p.FnOf(asFunc(p.Callee(rf, call))); ce != nil {
+					for _, cc := range ce.Calls() {
+						if p.CalleeName(ce, cc) == modPath+".GRPCBroker.Close" {
+							return true
+						}
+					}
+				}
+			}
+			return false
+		}
+		before := g.Reach([]*Node{g.Entry}, closesBroker, nil)
+		for _, m := range g.Nodes {
+			if m.Ast == nil {
+				continue
+			}
+			for _, call := range callsIn(m.Ast) {
+				nm := p.CalleeName(rf, call)
+				if nm != "google.golang.org/grpc.Server.Stop" && nm != "google.golang.org/grpc.Server.GracefulStop" {
+					continue
+				}
+				n++
+				construct := "broker closed before the server stops (shutdown path)"
+				if _, early := before[m]; early {
+					c.R.Violate("R-RES/brokerls", p.Pos(call), rf.Name, construct,
+						"on the path of the host's shutdown request the main gRPC server is stopped before the broker is closed: Serve returns as soon as the server has stopped and the plugin process exits while the brokered listeners (and their socket files) are still being closed", nil)
+				} else {
+					c.R.Hold("R-RES/brokerls", p.Pos(call), rf.Name, construct, "the broker is closed on every path before this stop", true)
+				}
+			}
+		}
+	}
+	_ = n
+}
+
+// ---------- R-PEND/present: an existing pending entry is never a reason to refuse ----------
+
+// rulePendingPresentOK: a broker's pending table gets an entry for an id from
+// whichever side comes first - the peer's message handled by Run, or the local
+// Accept / Dial. Neither order is an error, so in Accept and Dial no error
+// return is decided by finding the id already present in a pending table
+// (serverStreams, clientStreams, streams): the test would refuse every
+// connection whose other half arrived first.
+func rulePendingPresentOK(c *Ctx) {
+	p := c.P
+	tables := map[*types.Var]bool{}
+	for _, nm := range [][2]string{{"GRPCBroker", "serverStreams"}, {"GRPCBroker", "clientStreams"}, {"MuxBroker", "streams"}} {
+		if fv := p.FieldObj(modPath, nm[0], nm[1]); fv != nil {
+			tables[fv] = true
+		}
+	}
+	n, bad := 0, false
+	for _, name := range []string{"GRPCBroker.Accept", "GRPCBroker.DialWithOptions", "GRPCBroker.AcceptAndServe", "MuxBroker.Accept", "MuxBroker.Dial", "GRPCBroker.muxDial", "GRPCBroker.knock"} {
+		f := p.Fn(name)
+		if f == nil {
+			continue
+		}
+		n++
+		info := f.Pkg.TypesInfo
+		g := p.Graph(f)
+		// comma-ok results of lookups in a pending table
+		oks := map[types.Object]bool{}
+		ast.Inspect(f.Body, func(x ast.Node) bool {
+			as, ok := x.(*ast.AssignStmt)
+			if !ok || len(as.Lhs) != 2 || len(as.Rhs) != 1 {
+				return true
+			}
+			if ix, isIx := ast.Unparen(as.Rhs[0]).(*ast.IndexExpr); isIx && tables[SelField(info, ix.X)] {
+				if o := identObj(info, as.Lhs[1]); o != nil {
+					oks[o] = true
+				}
+			}
+			return true
+		})
+		if len(oks) == 0 {
+			continue
+		}
+		for _, m := range g.Nodes {
+			rs, isR := m.Ast.(*ast.ReturnStmt)
+			if !isR || len(rs.Results) == 0 {
+				continue
+			}
+			last := rs.Results[len(rs.Results)-1]
+			if !isErrorType(info.TypeOf(last)) || isNilIdent(info, last) {
+				continue
+			}
+			if g.OnlyViaEdge(m, func(e *Edge) bool {
+				at, ok := edgeAtom(info, e)
+				return ok && at.Kind == "bool" && at.True && oks[identObj(info, at.X)]
+			}) {
+				bad = true
+				c.R.Violate("R-PEND/present", p.Pos(rs), f.Name, "an id already present in the pending table is not refused",
+					"this error return is taken exactly when the id is already in the broker's pending table - but the entry is also created by Run when the peer's half of the hand-off arrives first, so every connection whose dial (or knock) precedes the local call is refused", nil)
+			}
+		}
+	}
+	if n < 4 {
+		c.R.Undecided("R-PEND/present", "", "instance-floor", fmt.Sprintf("only %d of the broker entry points found", n))
+	} else if !bad {
+		c.R.Hold("R-PEND/present", "-", "", "an id already present in the pending table is not refused", "no error return of Accept / Dial lies on the found-edge of a pending-table lookup", true)
 	}
 }
 
